@@ -32,6 +32,8 @@ var c13Sigma = func() []string {
 	// the client falls silent until the server's idle timeout (600 s of the bubble's clock) ends
 	// the session: that is no QUIT, nothing is removed
 	s = append(s, "!idle")
+	// STLS (refused here: TLS is not configured) - also twice in a row
+	s = append(s, "STLS")
 	// a login whose spelling differs from the mailbox name it maps to (upper case, +tag, domain)
 	s = append(s, "USER U+tag@x.test")
 	// one over-long command line whose bytes from a reader-buffer boundary on read like a command
@@ -595,7 +597,7 @@ func c13Explore(c *fw.Ctx, be string, nm int, loggedIn bool) {
 			for i, l := range c13Sigma {
 				switch l {
 				case "STAT", "LIST", "UIDL", "RSET", "NOOP", "QUIT", "XY", " ", "DELE 1", "DELE 2", "DELE 99", "RETR 1", "RETR 2",
-					"LIST 1", "UIDL 2", "TOP 1 1", "!deliver", "!extdel 1", "!extdel 2", "RETR 2 !hangup", "LIST !hangup", "QUIT !noread", "!idle":
+					"LIST 1", "UIDL 2", "TOP 1 1", "!deliver", "!extdel 1", "!extdel 2", "RETR 2 !hangup", "LIST !hangup", "QUIT !noread", "!idle", "STLS":
 					alpha = append(alpha, i)
 				}
 				if len(l) > 4000 {
